@@ -490,3 +490,11 @@ func (p *Prog) Relocks(fn *ssa.Function) []Relock {
 	})
 	return out
 }
+
+// AcquiresOf is acquiresOf with a fresh visited set (exported for rules that bind a method to a value by hand).
+func (p *Prog) AcquiresOf(fn *ssa.Function, depth int) map[LockKey]bool {
+	return p.acquiresOf(fn, depth, map[*ssa.Function]bool{})
+}
+
+// TranslateKey re-expresses a callee's parameter-rooted lock key for the given argument values.
+func TranslateKey(k LockKey, args []ssa.Value) (LockKey, bool) { return translateKey(k, args) }
